@@ -60,7 +60,7 @@ def from_items(q):
             yield q, j
             if isinstance(j.item, gen.Der):
                 yield from from_items(j.item.q)
-        for sub in ([q.where_in[1]] if q.where_in else []) + [q.where_exists, q.having_scalar]:
+        for sub in ([q.where_in[1]] if q.where_in else []) + [q.where_exists, q.having_scalar] + list(q.where_cmp or ()):
             if sub is not None:
                 yield from from_items(sub)
         for it in q.items:
@@ -222,7 +222,7 @@ def all_sels(q):
         for j in gen.flat(q.frm):
             if isinstance(j.item, gen.Der):
                 yield from all_sels(j.item.q)
-        for sub in ([q.where_in[1]] if q.where_in else []) + [q.where_exists, q.having_scalar]:
+        for sub in ([q.where_in[1]] if q.where_in else []) + [q.where_exists, q.having_scalar] + list(q.where_cmp or ()):
             if sub is not None:
                 yield from all_sels(sub)
     elif isinstance(q, gen.SetOp):
